@@ -5,7 +5,7 @@
     logical state of the protocol specification (Spec/PercoSpec.v): per key the
     lock and the timeline of commit / rollback records. *)
 From Coq Require Import List NArith Bool.
-From NoKV Require Import Base.Bytes Model.Percolator Model.KvApply Spec.PercoSpec Proofs.PercoProofs.
+From NoKV Require Import Base.Bytes Model.Percolator Model.KvApply Spec.PercoSpec Proofs.PercoProofs Proofs.PercoScanProofs.
 Local Open Scope N_scope.
 
 (** A GET is the protocol's read of the logical state: blocked by a lock with
@@ -65,3 +65,45 @@ Theorem C17_get_refuted_legacy_lockonly :
   handle_scan legacy (apply_all legacy wit_f17_lockonly) nil true 10 60 = (cons (B1 98, nil) nil, None).
 Proof. exact legacy_get_refuted_lockonly. Qed.
 Print Assumptions C17_get_refuted_legacy_lockonly.
+
+(** ** Scans *)
+
+(** [handleScan] is the sequence of point reads ([lget]) over the keys from
+    the start key on that already have a write record, in order, up to
+    [limit] values, stopping at the first lock ([lscan_blind]). *)
+Theorem C17_scan_eq_get_over_written_keys : forall h start incl limit version,
+  forallb req_ok h = true ->
+  handle_scan current (apply_all current h) start incl limit version =
+  lscan_blind (lrun h) start incl limit version.
+Proof. exact scan_refines_blind. Qed.
+Print Assumptions C17_scan_eq_get_over_written_keys.
+
+(** The full statement "scan = point gets over all keys" is refuted on the
+    working tree: the lock of a first-ever prewrite blocks GET but not SCAN
+    (known finding C17-F1; a repair needs a merged pass over the lock CF). *)
+Theorem C17_scan_eq_get_refuted :
+  forallb req_ok wit_scan = true /\
+  handle_scan current (apply_all current wit_scan) nil true 10 15 = (nil, None) /\
+  handle_get current (apply_all current wit_scan) (B1 98) 15 =
+    GLocked (B1 98) {| l_primary := B1 98; l_ts := 10; l_ttl := 100; l_kind := OpPut; l_min_commit := 0 |} /\
+  lscan (lrun wit_scan) nil true 10 15 =
+    (nil, Some (KELocked (B1 98) {| l_primary := B1 98; l_ts := 10; l_ttl := 100; l_kind := OpPut; l_min_commit := 0 |})) /\
+  scan_sees_all_locks (lrun wit_scan) nil true 15 = false.
+Proof. exact scan_refuted. Qed.
+Print Assumptions C17_scan_eq_get_refuted.
+
+(** It holds whenever no key in the range is blocked by a lock while having
+    no record yet (the excluded class, as a boolean on the logical state). *)
+Theorem C17_scan_eq_get_partial : forall h start incl limit version,
+  forallb req_ok h = true ->
+  scan_sees_all_locks (lrun h) start incl version = true ->
+  handle_scan current (apply_all current h) start incl limit version =
+  lscan (lrun h) start incl limit version.
+Proof. exact scan_eq_get_partial. Qed.
+Print Assumptions C17_scan_eq_get_partial.
+
+Theorem C17_scan_partial_nonvacuous :
+  forallb req_ok (wit_put 97 1 10 20) = true /\ scan_sees_all_locks (lrun (wit_put 97 1 10 20)) nil true 25 = true /\
+  lscan (lrun (wit_put 97 1 10 20)) nil true 10 25 = (cons (B1 97, B1 1) nil, None).
+Proof. exact scan_partial_nonvacuous. Qed.
+Print Assumptions C17_scan_partial_nonvacuous.
